@@ -114,6 +114,6 @@ def twin(spec, fat):
                 if x[f][0] == "group":
                     found = True
                     mem = [(0, 0x7FFFFFFF), (0x80000000, 0x7FFFFFFF)] if fat else [(TWIN_HOSTS.get(x[f][1], 0x0A636309), 0)]
-                    x[f] = ("group", x[f][1], mem)
+                    x[f] = ("group", x[f][1], mem, acegen.group_key(x[f][2]))     # same NAME as the original
         entries.append((kind, x))
     return dict(spec, entries=entries) if found else None
